@@ -18,7 +18,7 @@ func c02File(noFormat bool, n int) *File {
 		f = NewFilePathName("local.example/"+nondetString("localpath"), nondetString("pkgname"))
 	}
 	f.NoFormat = noFormat
-	if verifTier() > 0 {
+	if verifTier() > 0 && n < 2 {
 		impPrefix(f)
 	}
 	// comment shapes are C15's subject: one-line texts here
